@@ -399,7 +399,9 @@ func readdirSweep(root string) {
 }
 
 func sweepDir(g *guest, orc *hx.Oracle, d *rdDir, rng *rand.Rand) {
-	key := func(s string) string { return fmt.Sprintf("readdir/%d/%s/%s/%s", d.spec.Size, d.spec.Profile, s, g.engine) }
+	key := func(s string) string {
+		return fmt.Sprintf("readdir/%d/%s/%s/%s", d.spec.Size, d.spec.Profile, s, g.engine)
+	}
 	// (1) fixed buffer lengths: every length in the small range (stride in quick tier for big dirs) + large ones
 	var bufs []uint32
 	hi, stride := uint32(330), uint32(1)
